@@ -845,3 +845,42 @@ func c02LearnAssumption(env *c02Env, v ssa.Value, val bool, depth int) {
 		c02LearnAssumption(env, x.Edges[surv], val, depth+1)
 	}
 }
+
+// c02PureCarrier: every leaf of v (through phis and interface conversions) is
+// one of the allowed values or the nil constant — i.e. v has not been
+// re-assigned from some other source (a sentinel, a fresh error).
+func c02PureCarrier(v ssa.Value, allowed []ssa.Value) bool {
+	seen := map[ssa.Value]bool{}
+	var walk func(x ssa.Value) bool
+	walk = func(x ssa.Value) bool {
+		if seen[x] {
+			return true
+		}
+		seen[x] = true
+		for _, a := range allowed {
+			if x == a {
+				return true
+			}
+		}
+		if isNilConst(x) {
+			return true
+		}
+		switch y := x.(type) {
+		case *ssa.Phi:
+			for _, e := range y.Edges {
+				if !walk(e) {
+					return false
+				}
+			}
+			return true
+		case *ssa.ChangeInterface:
+			return walk(y.X)
+		case *ssa.MakeInterface:
+			return walk(y.X)
+		case *ssa.ChangeType:
+			return walk(y.X)
+		}
+		return false
+	}
+	return walk(v)
+}
